@@ -230,7 +230,8 @@ def finish(ctx, t0, explanation, level="other"):
         "violations": len(new_v),
     }
     ev["coverage"].update(ctx.extra)
-    evdir = os.path.join(VERIF, "evidence")
+    # sharded regression runs of the checker write their (throw-away) evidence elsewhere; the registered checks use the default
+    evdir = os.environ.get("VERIF_EVIDENCE") or os.path.join(VERIF, "evidence")
     os.makedirs(evdir, exist_ok=True)
     with open(os.path.join(evdir, "%s.json" % ctx.prop), "w") as f:
         json.dump(ev, f, indent=1, sort_keys=False)
@@ -246,7 +247,7 @@ def finish(ctx, t0, explanation, level="other"):
         for v in new_v:
             h = hashlib.sha1(v["key"].encode()).hexdigest()[:10]
             rp = os.path.join("evidence", "replay", "%s-%s.json" % (ctx.prop, h))
-            with open(os.path.join(VERIF, rp), "w") as f:
+            with open(os.path.join(rdir, "%s-%s.json" % (ctx.prop, h)), "w") as f:
                 json.dump({"property": ctx.prop, "violation": v}, f, indent=1)
             print("  rule %s: %s" % (v["rule"], v["rule_text"]))
             print("  at %s: %s" % (v.get("loc"), v["what"]))
